@@ -42,6 +42,8 @@ CLASS_REPS = {
     "^": [b"\x1c", b"\x0b", b"\x1f"],                                   # FS: ASCII control blanks
     "x": [b"x", b"q", b"B"],                                            # an ordinary ASCII letter
     "0": [b"0", b"5", b"9"],                                            # a digit
+    "=": ["\u0663".encode(), "\uff13".encode(), "\u096d".encode()],      # UD: a Unicode decimal digit (valid UTF-8)
+    "~": [b"_", b"_", b"_"],                                            # US: the ASCII underscore itself
 }
 # Header lines: NAME ":" VALUE EOL.  For the Accept kinds the VALUE spellings cover the position of the WML type in
 # the list (first, only, middle, last), a blank / no blank after the colon, comma / comma-blank / blank separators
@@ -51,9 +53,11 @@ WML = "text/vnd.wap.wml"
 ACCEPT_VALUES = {
     "AW": [" text/html, " + WML, " " + WML, " " + WML + ", text/html", " text/html," + WML + ",*/*",
            "text/html," + WML, " text/html " + WML, " */*, " + WML + ";q=0.5", "text/html, " + WML + ", image/gif",
-           " " + WML + ",text/html;q=0.9", "  " + WML, " image/gif ," + WML],
+           " " + WML + ",text/html;q=0.9", "  " + WML, " image/gif ," + WML,
+           "\u00a0" + WML, " text/html\u2003" + WML, "text/html,\u00a0" + WML],      # Unicode blanks (valid UTF-8) are blanks
     "AG": [WML, WML + ",text/html", WML + ", */*;q=0.1", "\t" + WML, WML + ";q=1"],     # WML first, nothing (or a TAB) before it
-    "AO": [" text/html", " */*", "", "text/html,image/gif", " text/html, application/xhtml+xml", " text/vnd.wap", " image/vnd.wap.wbmp"],
+    "AO": [" text/html", " */*", "", "text/html,image/gif", " text/html, application/xhtml+xml", " text/vnd.wap", " image/vnd.wap.wbmp",
+           " text/html\udca0" + WML, " a,\udc85" + WML, "\udca0" + WML, " x\udcff" + WML],   # an invalid-UTF-8 byte glued to the WML type
 }
 ACCEPT_NAMES = ["Accept", "ACCEPT", "accept", "aCCept"]
 EOLS = [b"\r\n", b"\n"]
@@ -62,7 +66,10 @@ HDR_REPS = {
            b"x-wap-profile:http://example.com/p.xml\r\n"],
     "XU": [b"x-up-devcap-max-pdu: 1024\r\n", b"X-Up-Devcap-Max-Pdu: 1\r\n", b"X-UP-DEVCAP-MAX-PDU:\n", b"x-up-devcap-max-pdu:2048\n"],
     "NC": [b"no colon here\r\n", b"HTTP/1.0 junk\r\n", b"x\n"],
-    "BL": [b"\r\n", b"\n", b" \t\r\n"],
+    "BL": [b"\r\n", b"\n", b" \t\r\n", b"\xc2\xa0\r\n", b"\xe2\x80\x83 \n"],          # incl. lines of Unicode blanks (valid UTF-8)
+    "HB": [b"\xa0\r\n", b"\x85\r\n", b"\xff\n", b"\xa0\x85\r\n", b" \xa0 \r\n"],
+    "HX": [b"\xa0Accept: " + WML.encode() + b"\r\n", b"Accept\x85: text/html, " + WML.encode() + b"\r\n",
+           b"\x85x-wap-profile: http://example.com/p.xml\r\n", b"x-up-devcap-max-pdu\xa0: 1024\n", b"\xffaccept:" + WML.encode() + b"\n"],
 }
 FILLER = [b"k", b"j", b"Z"]          # PAD "@": a run of `pad` filler letters (letters no token or class uses)
 NREPS = 3
@@ -93,7 +100,9 @@ def abstract_line(data: bytes):
         if 0xDC80 <= o <= 0xDCFF:
             out.append("#")
         elif o >= 0x80:
-            out.append("_" if ch.isspace() else "?")
+            out.append("_" if ch.isspace() else "=" if ch.isdecimal() else "?")
+        elif ch == "_":
+            out.append("~")
         elif ch in "\x0b\x0c\x1c\x1d\x1e\x1f":
             out.append("^")
         elif ch in "qB":
@@ -115,7 +124,7 @@ def concretise_hdrs(case, rep: int):
             vals = ACCEPT_VALUES[k]
             i = _pick(len(vals), "v", *key)
             name = ACCEPT_NAMES[_pick(len(ACCEPT_NAMES), "n", *key)]
-            out.append(name.encode() + b":" + vals[i].encode() + EOLS[_pick(2, "e", *key)])
+            out.append(name.encode() + b":" + vals[i].encode("utf-8", "surrogateescape") + EOLS[_pick(2, "e", *key)])
         else:
             i = _pick(len(HDR_REPS[k]), "h", *key)
             out.append(HDR_REPS[k][i])
@@ -163,6 +172,10 @@ TOK_BASE = ["GET", "HEAD", "HTTP/", "gemini:", "/", "x", "0", " ", "\t", "+", "!
 FAMB_LINES = dict(M={"GET", "HEAD", "get", "x"}, S={" ", "\t"}, P={"/wap", "/wap/x", "/wapx", "/wap?x", "/x", "x/wap", ""},
                   V={"HTTP/1.0", "http/1.0", "xHTTP/", "0"})
 KINDS = {"AW", "AG", "AO", "XP", "XU", "NC", "BL"}
+HIGH_KINDS = {"AW", "AO", "XP", "HB", "HX", "BL"}      # header blocks with bytes >= 0x80 (own small bundle)
+# numeric-field spellings (Spartan length, HTTP version, Gemini port): sign, underscore, leading zeros, TAB / control blank inside the
+# field, hex / float / exponent forms, Unicode digits, trailing junk - the documented numbers are plain ASCII digit runs
+NUM_V = {"+0", "-0", "+00", "0~0", "\t0", "^0", "0\t", "00", "0x0", "0.0", "0e0", "=", "0=", "0+", "", "HTTP/+1.0", "HTTP/1~0", "HTTP/=.0"}
 # family L: templates whose claim is decided by the END of the line; "@" = PAD run inside the selector / path
 LONG_LINES = ["GET /@ HTTP/1.0", "HEAD /x/@ HTTP/1.0", "GET /wap/@ HTTP/1.0", "GET /@ xHTTP/", "GET /@\tHTTP/1.0",
               "@\t+", "/@\t$", "@\t!", "@\tx\t+", "@\tx", "@\t", "@", "x /@ 0", "x /@ x", "gemini://x/@"]
@@ -205,7 +218,9 @@ def configs(tier, shipped):
             lists=[list(shipped)] + other_lists(shipped, tier),
             tokens=TOK_BASE, na=3, terms_a={"\r\n", "\n", ""}, hdrs_a=[[]],
             famb=[dict(big, T={"\r\n", "\n"}, HK={"AW", "XP"}, HN=2),
-                  dict(M={"GET", "x"}, S={" "}, P={"/wap", "/wapx", "/x", ""}, V={"HTTP/1.0", "0"}, T={"\r\n"}, HK=KINDS, HN=3)],
+                  dict(M={"GET", "x"}, S={" "}, P={"/wap", "/wapx", "/x", ""}, V={"HTTP/1.0", "0"}, T={"\r\n"}, HK=KINDS, HN=3),
+                  dict(M={"GET"}, S={" "}, P={"/x"}, V={"HTTP/1.0"}, T={"\r\n"}, HK=HIGH_KINDS, HN=3),
+                  dict(M={"x", "GET", "gemini://x:+0~0/x"}, S={" "}, P={"/x"}, V=NUM_V, T={"\r\n"}, HK={"AW"}, HN=0)],
             csel={"", "x"}, cfields={"", "+", "!", "$", "+x", "!x", "x", " ", "$x", "x+"}, cn=3,
             terms_c={"\r\n", ""}, hdrs_c=[[]],
             long=LONG_LINES, pads=PADS_QUICK, terms_l={"\r\n"}, hdrs_l=[[], ["AW", "XP"]])
@@ -215,7 +230,10 @@ def configs(tier, shipped):
         tokens=TOK_BASE + ["/wap", "7"], na=4, terms_a={"\r\n"}, hdrs_a=[[]],
         famb=[dict(big, T={"\r\n", "\n"}, HK=KINDS, HN=2),
               dict(M={"GET", "HEAD", "x"}, S={" "}, P={"/wap", "/wapx", "/wap?x", "/x", ""}, V={"HTTP/1.0", "0"}, T={"\r\n", "\n"},
-                   HK=KINDS - {"NC", "XU"}, HN=4)],
+                   HK=KINDS - {"NC", "XU"}, HN=4),
+              dict(M={"GET", "HEAD"}, S={" "}, P={"/x", ""}, V={"HTTP/1.0"}, T={"\r\n", "\n"}, HK=HIGH_KINDS | {"AG", "XU"}, HN=4),
+              dict(M={"x", "GET", "gemini://x:+0~0/x", "x\t"}, S={" ", "\t"}, P={"/x", "x"}, V=NUM_V | {"7", "+7~0", " 0"}, T={"\r\n", "\n", ""},
+                   HK={"AW"}, HN=0)],
         csel={"", "x", "/x"}, cfields={"", "+", "!", "$", "+x", "!x", "x", " ", "$x", "x+", "_", "^"}, cn=3,
         terms_c={"\r\n", "\n", ""}, hdrs_c=[[], ["AW", "XP"]],
         long=LONG_LINES + ["GET /@?x HTTP/1.0", "@ x 0", "_@\t+", "GET /@ HTTP/1.0 "], pads=PADS_THOROUGH, terms_l={"\r\n", "\n", ""},
@@ -750,6 +768,7 @@ def _main(chk, replay=None):
             raise core.MachineryError("C02 vacuous: no detection consumed a header line (WAP slurp never exercised)")
         used = set().union(*[set(r["st"]["spellings"]) for r in runs.values()])
         want = {"%s%d" % (k, i) for k, v in ACCEPT_VALUES.items() for i in range(len(v))}
+        want |= {"%s%d" % (k, i) for k in ("HB", "HX", "BL") for i in range(len(HDR_REPS[k]))}
         if want - used:
             raise core.MachineryError("C02 vacuous: Accept spellings never generated: %s" % sorted(want - used))
         seen = set().union(*[r["st"]["aw_detected"] for r in runs.values()])
@@ -798,7 +817,7 @@ def _main(chk, replay=None):
         "trace_states": sum(r["st"]["trace_states"] for r in runs.values()) + (sn["tv"]["states"] if sn else 0),
         "model_coverage_zero": zero, "timing": {n: r["timing"] for n, r in runs.items()},
         "accept_spellings_used": {k: sum(r["st"]["spellings"].get(k, 0) for r in runs.values())
-                                  for k in sorted({k for r in runs.values() for k in r["st"]["spellings"]}) if k[:2] in ("AW", "AG", "AO")},
+                                  for k in sorted({k for r in runs.values() for k in r["st"]["spellings"]}) if k[:2] in ("AW", "AG", "AO", "HB", "HX", "BL")},
         "model_follows_code_reading_of_glued_accept": GLUED,
         "constants_bound": bound, "shipped": shipped, "waptop": waptop, "model_follows_unrepaired_gopherplus": raises,
         "bindings": ["B1 shipped order + waptop from conf/pygopherd.conf", "B2 every TLC-enumerated case replayed through the real "
